@@ -263,8 +263,10 @@ func Generate(r *rand.Rand, k Knobs) *Scenario {
 			anon[i] = true
 		}
 	}
-	for i := range anon {
-		s.Hints = append(s.Hints, Hint{Op: "Anon", Path: s.Paths[i].Path})
+	for i := range s.Paths { // in path order: the harness itself must not depend on map iteration
+		if anon[i] {
+			s.Hints = append(s.Hints, Hint{Op: "Anon", Path: s.Paths[i].Path})
+		}
 	}
 	// extra anonymous imports of paths that exist only for that
 	for j := 0; j < 3; j++ {
